@@ -21,12 +21,15 @@ import (
 	"go/token"
 	"go/types"
 	"os"
+	"path/filepath"
 	"reflect"
 	"regexp"
 	"strings"
 
 	"verif/harness/internal/filt"
 	"verif/harness/internal/hutil"
+
+	"github.com/quasilyte/go-ruleguard/ruleguard"
 )
 
 const W = 64
@@ -164,6 +167,14 @@ func takeI64(int64)                      {}
 func takeAny(interface{})                {}
 func takeV(string, ...int)               {}
 func takeMy(MyInt)                       {}
+func take2(string, int)                  {}
+func take2i(int, string)                 {}
+func takeIr(a int) int                   { return a }
+func idT[T any](v T) T                   { return v }
+
+type FnT func(int) string
+
+var gF FnT
 
 var _ = fmt.Sprint
 var _ = os.Stdout
@@ -235,6 +246,20 @@ var multis = [][]string{
 	{"ge", "gerr"},
 	{"gflat", "garr", "gi8"},
 	{"gs", "gp", "gflat"},
+	// pairs whose two elements differ in (almost) every fact, in both orders
+	{"gs", "gi"}, {"1", "gi"}, {"gi", "1"}, {"f1()", "1"}, {"gsl", "gi"}, {"gp", "gs"}, {"gS", "gp"}, {"gi8", "gsl"}, {"gI", "gi"}, {"gstr", "gi"},
+	{"gf64", "gs"}, {"gu8", "gf64"}, {"cs", "gi"}, {"gi", "cs"}, {"[]int{1}", "gsl"}, {"gsl", "[]int{1}"}, {"[]byte(\"a\")", "gi"}, {"&gi", "gi"},
+	{"gi", "&gi"}, {"vs", "prm"}, {"prm", "vs"}, {"strings.ToUpper", "gi"}, {"gi", "strings.ToUpper"}, {"nil", "gi"}, {"gi", "nil"}, {"S{}", "gi"},
+	{"gmi", "gms"}, {"gAI", "gs"}, {"func() {}", "gi"}, {"gi", "func() {}"}, {"gsl[0]", "f1()"}, {"t", "gi"}, {"gi", "t"},
+	// x contains / does not contain y (Contains("$y") searches x for the expression captured as y)
+	{"gi + f1()", "gi"}, {"gsl[gi]", "gi"}, {"S{a: gi}", "gi"}, {"gs + \"x\"", "gi"}, {"f1()", "gi"}, {"strings.ToUpper(gs)", "gs"}, {"gS.a", "gS"},
+	{"gm[\"a\"]", "\"a\""}, {"[]int{1, gi}", "1"}, {"(gi)", "gi"}, {"gi + 1", "gi + 1"}, {"-gi", "gi"}, {"gi", "-gi"}, {"gi + 1", "1 + gi"},
+	{"takeIr(gi + 1)", "gi + 1"}, {"gsl[1:]", "gsl"}, {"func() int { return gi }", "gi"}, {"gi", "gi + 1"}, {"gSP.s.b", "gSP.s"}, {"gSP.s.b", "gS"},
+	// longer lists: the deciding element first / in the middle / last
+	{"gi", "gi", "gs"}, {"gs", "gi", "gi"}, {"gi", "gs", "gi"}, {"1", "2", "gi"}, {"gi", "1", "2"}, {"gsl", "gsl", "gi"}, {"f1()", "gi", "gi"}, {"gi", "gi", "f1()"},
+	{"&gi", "gi", "gi"}, {"gi", "gi", "&gi"}, {"[]int{1}", "[]int{2}", "gsl"}, {"gsl", "[]int{1}", "[]int{2}"}, {"gp", "gp", "gi"}, {"gi", "gp", "gp"},
+	{"gstr", "gstr", "gi"}, {"gi", "gstr", "gstr"}, {"ge", "ge", "gi"}, {"gi", "ge", "ge"}, {"vs", "vs", "prm"}, {"prm", "vs", "vs"},
+	{"ge", "gi", "ge"}, {"gi", "gsl", "gi"}, {"1", "gi", "2"}, {"[]int{1}", "gsl", "[]int{2}"}, {"gi", "f1()", "gi"}, {"gstr", "gi", "gstr"}, {"gi", "&gi", "gi"},
 }
 
 var stmts = []string{
@@ -282,6 +307,38 @@ var sinks = []sinkCtx{
 	{"_ = &S2{%s, \"y\"}", "int", "CompositeLit"},
 	{"_ = G[int]{%s}", "int", "CompositeLit"},
 	{"_ = struct{ q interface{} }{%s}", "interface{}", "CompositeLit"},
+	// the position of the match among its siblings decides
+	{"gs, gi = \"a\", %s", "int", "AssignStmt"},
+	{"take2(\"a\", %s)", "int", "CallExpr"},
+	{"take2i(%s, \"a\")", "int", "CallExpr"},
+	{"var _, _ int64 = 1, int64(%s)", "int64", "CallExpr"},
+	{"_ = S2{b: \"q\", a: %s}", "int", "KeyValueExpr"},
+	{"_ = []int{2: %s}", "int", "KeyValueExpr"},
+	{"_ = map[string]S2{\"k\": {a: %s}}", "int", "KeyValueExpr"},
+	{"_ = map[string]S2{\"k\": {%s, \"b\"}}", "int", "CompositeLit"},
+	{"takeV(\"a\", []int{%s}...)", "int", "CompositeLit"},
+	// callees that are not plain declared functions
+	{"_ = gf(%s)", "int", "CallExpr"},
+	{"_ = idT[int](%s)", "int", "CallExpr"},
+	{"_ = idT(%s)", "int", "CallExpr"},
+	{"_ = append(gsl, %s)", "int", "CallExpr"},
+	{"_ = func(a string, b int) int { return b }(\"a\", %s)", "int", "CallExpr"},
+	// assignments through an element
+	{"gm2[%s] = \"v\"", "int", "IndexExpr"},
+	{"gm[\"k\"] = %s", "int", "AssignStmt"},
+	{"gsl[0] = %s", "int", "AssignStmt"},
+	{"gS.a = %s", "int", "AssignStmt"},
+	{"*gp = %s", "int", "AssignStmt"},
+	// no sink
+	{"gi += %s", "", "AssignStmt"},
+	{"{\n\t\tv := %s\n\t\t_ = v\n\t}", "", "AssignStmt"},
+	{"switch gi {\n\tcase %s:\n\t}", "", "CaseClause"},
+	{"_ = gSP.s.a + %s", "", "BinaryExpr"},
+	{"for range [1]int{} {\n\t\t_ = gi < %s\n\t}", "", "BinaryExpr"},
+	// parentheses, elided element types, named function types
+	{"gi = (%s)", "int", "ParenExpr"},
+	{"_ = []*S2{{%s, \"x\"}}", "int", "CompositeLit"},
+	{"_ = gF(%s)", "int", "CallExpr"},
 }
 
 func probeNames(prefix string, ret string) string {
@@ -359,6 +416,12 @@ func targetSource() string {
 		fmt.Fprintf(&sb, "\tif gb {\n\t\treturn (r%d())\n\t}\n", j)
 	}
 	sb.WriteString("\treturn 0\n}\n")
+	// the match is the second result
+	sb.WriteString("func second() (string, int) {\n")
+	for j := 0; j < W; j++ {
+		fmt.Fprintf(&sb, "\tif gb {\n\t\treturn \"a\", r%d()\n\t}\n", j)
+	}
+	sb.WriteString("\treturn \"\", 0\n}\n")
 	return sb.String()
 }
 
@@ -679,6 +742,27 @@ func contains(x ast.Node, what string) bool {
 	return found
 }
 
+// sameExpr: two expressions are the same syntax (compared on their gofmt-independent token text)
+func (e *env) sameExpr(a, b ast.Expr) bool {
+	if reflect.TypeOf(a) != reflect.TypeOf(b) {
+		return false
+	}
+	norm := func(x ast.Expr) string { return strings.Join(strings.Fields(filt.Text(e.t, x)), "") }
+	return norm(a) == norm(b)
+}
+
+// containsExpr: does x have a sub-expression (x itself included) that is the same syntax as y
+func (e *env) containsExpr(x, y ast.Expr) bool {
+	found := false
+	ast.Inspect(x, func(n ast.Node) bool {
+		if ex, ok := n.(ast.Expr); ok && e.sameExpr(ex, y) {
+			found = true
+		}
+		return !found
+	})
+	return found
+}
+
 // ---------------------------------------------------------------- predicate instances
 
 type pred struct {
@@ -863,6 +947,21 @@ func preds(e0 *env) []pred {
 			}})
 	}
 	// pair
+	add(pred{name: "Contains:$y", ctor: "makeVarContainsFilter", kinds: "p", mk: func(v string) *filt.DExpr { return filt.Call("Contains", "x", filt.Str("$y")) },
+		factP: func(e *env, x, y ast.Expr) tri { return b2t(e.containsExpr(x, y)) }})
+	add(pred{name: "Contains:$y+1", ctor: "makeVarContainsFilter", kinds: "p", mk: func(v string) *filt.DExpr { return filt.Call("Contains", "x", filt.Str("$y + 1")) },
+		factP: func(e *env, x, y ast.Expr) tri {
+			found := false
+			ast.Inspect(x, func(n ast.Node) bool {
+				if b, ok := n.(*ast.BinaryExpr); ok && b.Op == token.ADD && e.sameExpr(b.X, y) {
+					if l, ok := b.Y.(*ast.BasicLit); ok && l.Value == "1" {
+						found = true
+					}
+				}
+				return true
+			})
+			return b2t(found)
+		}})
 	add(pred{name: "Type.IdenticalTo", ctor: "makeTypesIdenticalFilter", kinds: "p", mk: func(v string) *filt.DExpr { return filt.Call("Type.IdenticalTo", "x", filt.Index("y")) },
 		factP: func(e *env, x, y ast.Expr) tri { return b2t(types.Identical(e.typeOf(x), e.typeOf(y))) }})
 	for _, tok := range []string{"EQL", "LSS", "GEQ"} {
@@ -885,7 +984,7 @@ func preds(e0 *env) []pred {
 	}
 	// root ($$)
 	for _, tag := range []string{"ValueSpec", "CallExpr", "AssignStmt", "IndexExpr", "CompositeLit", "KeyValueExpr", "ParenExpr", "BinaryExpr", "ExprStmt", "UnaryExpr",
-		"SendStmt", "ReturnStmt", "Expr", "Stmt", "Node"} {
+		"SendStmt", "ReturnStmt", "CaseClause", "Expr", "Stmt", "Node"} {
 		tag := tag
 		add(pred{name: "Node.Parent.Is:" + tag, ctor: "makeRootParentNodeIsFilter", kinds: "r", mk: func(v string) *filt.DExpr { return filt.Call("Node.Parent.Is", "$$", filt.Str(tag)) },
 			factR: func(e *env, s *sinkSite) tri { return b2t(nodeIs(e.parents[s.call], tag)) }})
@@ -922,13 +1021,13 @@ func preds(e0 *env) []pred {
 				return no
 			}})
 	}
-	for _, re := range []string{"^target\\.go$", "_test\\.go$", "arget", "^/"} {
+	for _, re := range []string{"^target\\.go$", "_test\\.go$", "arget", "^/", "^b_"} {
 		re := re
 		rx := regexp.MustCompile(re)
 		add(pred{name: "File.Name.Matches:" + re, ctor: "makeFileNameMatchesFilter", kinds: "f", mk: func(v string) *filt.DExpr { return filt.Call("File.Name.Matches", "", filt.Str(re)) },
-			fact: func(e *env, x ast.Expr) tri { return b2t(rx.MatchString("target.go")) }})
+			fact: func(e *env, x ast.Expr) tri { return b2t(rx.MatchString(filepath.Base(e.t.Path))) }})
 	}
-	for _, re := range []string{"^target$", "^tar", "/", "^$"} {
+	for _, re := range []string{"^target$", "^tar", "/", "^$", "pkgb$"} {
 		re := re
 		rx := regexp.MustCompile(re)
 		add(pred{name: "File.PkgPath.Matches:" + re, ctor: "makeFilePkgPathMatchesFilter", kinds: "f", mk: func(v string) *filt.DExpr { return filt.Call("File.PkgPath.Matches", "", filt.Str(re)) },
@@ -1152,8 +1251,8 @@ func main() {
 	})
 	// expected sink / parent of the r sites: the first len(sinks) follow the table, then the three return forms
 	for j := 0; j < W; j++ {
-		if len(rcalls[j]) != len(sinks)+3 {
-			fmt.Fprintf(os.Stderr, "r%d has %d sites, expected %d\n", j, len(rcalls[j]), len(sinks)+3)
+		if len(rcalls[j]) != len(sinks)+4 {
+			fmt.Fprintf(os.Stderr, "r%d has %d sites, expected %d\n", j, len(rcalls[j]), len(sinks)+4)
 			os.Exit(3)
 		}
 		for i, s := range rcalls[j] {
@@ -1165,8 +1264,10 @@ func main() {
 				s.sink, s.par = "int", "ReturnStmt"
 			case i == len(sinks)+1:
 				s.sink, s.par = "int64", "CallExpr"
-			default:
+			case i == len(sinks)+2:
 				s.sink, s.par = "int", "ParenExpr"
+			default:
+				s.sink, s.par = "int", "ReturnStmt" // second result of (string, int)
 			}
 		}
 	}
@@ -1188,8 +1289,13 @@ func main() {
 			switch k {
 			case 's':
 				mkRule("single", "p%d($x)", "x")
+				// the same predicate in a pattern with two variables, on the first and on the second one
+				mkRule("first", "p%d($x, $y)", "x")
+				mkRule("second", "p%d($x, $y)", "y")
 			case 'l':
 				mkRule("list", "p%d($*xs)", "xs")
+				// a list capture that does not start at the first argument
+				mkRule("tail", "p%d($_, $*xs)", "xs")
 			case 't':
 				mkRule("stmt", "if q%d() { $x }", "x")
 			case 'p':
@@ -1259,7 +1365,7 @@ func main() {
 		for _, r := range batch {
 			p := r.p
 			switch r.kind {
-			case "single", "list", "pair", "file":
+			case "single", "list", "pair", "file", "first", "second", "tail":
 				for i, ps := range pcalls[r.j] {
 					args := ps.call.Args
 					o := obs{Site: filt.Text(t, ps.call)[strings.Index(filt.Text(t, ps.call), "("):], Verdict: acc[r][i], Dead: ps.dead, GoVer: gover, Facts: []int{}, Node: -1}
@@ -1269,6 +1375,9 @@ func main() {
 					if r.kind == "list" && p.onList != nil {
 						o.Node = int(safe(func() tri { return p.onList(e, args) }))
 					}
+					if r.kind == "tail" && p.onList != nil && len(args) >= 1 {
+						o.Node = int(safe(func() tri { return p.onList(e, args[1:]) }))
+					}
 					switch r.kind {
 					case "single":
 						if len(args) != 1 {
@@ -1276,9 +1385,28 @@ func main() {
 						}
 						o.Shape = "one"
 						o.Facts = []int{int(safe(func() tri { return p.fact(e, args[0]) }))}
+					case "first", "second":
+						if len(args) != 2 {
+							continue
+						}
+						o.Shape = "one"
+						a := args[0]
+						if r.kind == "second" {
+							a = args[1]
+						}
+						o.Facts = []int{int(safe(func() tri { return p.fact(e, a) }))}
 					case "list":
 						o.Shape = "list"
 						for _, a := range args {
+							a := a
+							o.Facts = append(o.Facts, int(safe(func() tri { return p.fact(e, a) })))
+						}
+					case "tail":
+						if len(args) < 1 {
+							continue
+						}
+						o.Shape = "list"
+						for _, a := range args[1:] {
 							a := a
 							o.Facts = append(o.Facts, int(safe(func() tri { return p.fact(e, a) })))
 						}
@@ -1364,10 +1492,134 @@ func main() {
 			runBatch(versioned[i:end], gv)
 		}
 	}
+	// ---- a run sequence over two files of different packages, with and without a reused RunnerState: what a predicate
+	// says about the file (imports, name, package path), about the source text and about the types must follow the file
+	// that is being run, not the one before it
+	{
+		var sb strings.Builder
+		sb.WriteString("package pkgb\n\nimport (\n\t\"io\"\n\t\"strings\"\n)\n\nvar gi string\nvar hs int\n\nconst ci = \"five\"\n\nvar _ = io.EOF\nvar _ = strings.ToLower\n\n")
+		for j := 0; j < W; j++ {
+			fmt.Fprintf(&sb, "func p%d(args ...interface{}) {}\n", j)
+		}
+		sb.WriteString("\nfunc sitesB() {\n")
+		for _, ex := range []string{"gi", "hs", "ci", "gi + \"x\"", "hs + 1", "strings.ToLower(gi)"} {
+			for j := 0; j < W; j++ {
+				fmt.Fprintf(&sb, "\tp%d(%s)\n", j, ex)
+			}
+		}
+		sb.WriteString("}\n")
+		tb, err := hutil.CheckTargetPkg(*tmp, "otherdir/b_test.go", []byte(sb.String()), "example.com/other/pkgb")
+		if err != nil {
+			fmt.Fprintln(os.Stderr, err)
+			os.Exit(3)
+		}
+		eb := &env{t: tb, sizes: e.sizes, parents: map[ast.Node]ast.Node{}, funcOf: map[ast.Node]*ast.FuncDecl{}, stringer: e.stringer, errIface: e.errIface}
+		type fileIdx struct {
+			t      *hutil.Target
+			e      *env
+			name   string
+			pcalls map[int][]*ast.CallExpr
+			pos    map[int][2]int
+		}
+		index := func(t *hutil.Target, en *env, name string) *fileIdx {
+			fi := &fileIdx{t: t, e: en, name: name, pcalls: map[int][]*ast.CallExpr{}, pos: map[int][2]int{}}
+			ast.Inspect(t.File, func(n ast.Node) bool {
+				if v, ok := n.(*ast.CallExpr); ok {
+					if id, ok := v.Fun.(*ast.Ident); ok {
+						if j := probeIdx(id.Name, 'p'); j >= 0 {
+							fi.pos[t.Fset.Position(v.Pos()).Offset] = [2]int{j, len(fi.pcalls[j])}
+							fi.pcalls[j] = append(fi.pcalls[j], v)
+						}
+					}
+				}
+				return true
+			})
+			return fi
+		}
+		fa, fb := index(t, e, "target.go"), index(tb, eb, "b_test.go")
+		var seq []*rule
+		for i := range all {
+			p := &all[i]
+			if *only != "" && !strings.Contains(p.name, *only) {
+				continue
+			}
+			pick := strings.Contains(p.kinds, "f") && p.gover == "" && p.name != "Deadcode"
+			for _, pre := range []string{"Text:", "Text.Matches:^g", "Text.Matches:gi", "Type.Is:int", "Type.Is:string", "Const", "Object.IsGlobal", "Object.Is:Var", "Type.Size:EQL:8", "Value.Int:"} {
+				if strings.HasPrefix(p.name, pre) && p.name != "ConstSlice" {
+					pick = true
+				}
+			}
+			if !pick || len(seq) >= W {
+				continue
+			}
+			d := p.mk("x")
+			seq = append(seq, &rule{p: p, kind: "seq", where: d, j: len(seq),
+				out: &ruleOut{K: "rule", Name: p.name, Kind: "seq", Ctor: p.ctor, Src: d.Go(), Pattern: "p%d($x)", Mode: p.mode, Obs: []obs{}}})
+		}
+		if len(seq) > 0 {
+			frules := make([]filt.Rule, len(seq))
+			byName := map[string]*rule{}
+			for k, r := range seq {
+				name := fmt.Sprintf("g%d", k)
+				byName[name] = r
+				frules[k] = filt.Rule{Name: name, Pattern: fmt.Sprintf(r.out.Pattern, k), Where: r.where}
+			}
+			eng, lerr := filt.Load(t.Fset, filt.RulesFile("", frules))
+			if lerr != nil {
+				for _, r := range seq {
+					r.out.LoadErr = lerr.Error()
+				}
+			} else {
+				st := ruleguard.NewRunnerState(eng)
+				type step struct {
+					f     *fileIdx
+					state *ruleguard.RunnerState
+				}
+				for si, sp := range []step{{fb, nil}, {fa, nil}, {fb, st}, {fa, st}, {fb, st}, {fb, nil}} {
+					reports, pmsg := hutil.Run(eng, sp.f.t, 0, "", sp.state)
+					if pmsg != "" {
+						for _, r := range seq {
+							r.out.Panic = pmsg
+						}
+						break
+					}
+					acc := map[*rule]map[int]bool{}
+					for _, rep := range reports {
+						r := byName[rep.Group]
+						ji, ok := sp.f.pos[rep.Pos]
+						if r == nil || !ok || ji[0] != r.j {
+							fmt.Fprintf(os.Stderr, "sequence report cannot be attributed: %+v\n", rep)
+							os.Exit(3)
+						}
+						if acc[r] == nil {
+							acc[r] = map[int]bool{}
+						}
+						acc[r][ji[1]] = true
+					}
+					for _, r := range seq {
+						for i, call := range sp.f.pcalls[r.j] {
+							if len(call.Args) != 1 {
+								continue
+							}
+							arg, en := call.Args[0], sp.f.e
+							o := obs{Site: fmt.Sprintf("run %d of the sequence, file %s (state reused: %v): %s", si+1, sp.f.name, sp.state != nil, filt.Text(sp.f.t, call)),
+								Shape: "one", Verdict: acc[r][i], Node: -1, Facts: []int{int(safe(func() tri { return r.p.fact(en, arg) }))}}
+							if r.p.nilT != nil {
+								o.Nil = int(safe(func() tri { return r.p.nilT(en) }))
+							}
+							r.out.Obs = append(r.out.Obs, o)
+						}
+					}
+				}
+			}
+			rules = append(rules, seq...)
+		}
+	}
+
 	for _, r := range rules {
 		enc.Encode(r.out)
 	}
-	enc.Encode(map[string]interface{}{"k": "meta", "rules": len(rules), "exprs": len(exprs), "multis": len(multis), "stmts": len(stmts) - 1, "sinks": len(sinks) + 3,
+	enc.Encode(map[string]interface{}{"k": "meta", "rules": len(rules), "exprs": len(exprs), "multis": len(multis), "stmts": len(stmts) - 1, "sinks": len(sinks) + 4,
 		"gotypesalias": os.Getenv("GODEBUG")})
 }
 
